@@ -73,3 +73,10 @@ func VerifAcceptKey(key string) string { return acceptKeyString(key) }
 // VerifSetReleasePayload: what Upgrade derives from Upgrader.ReleasePayload / Engine.ReleaseWebsocketPayload
 // (the payload buffer goes back to the pool when the message callback returns).
 func (c *Conn) VerifSetReleasePayload(b bool) { c.releasePayload = b }
+
+// VerifSendQueueLen: frames in the asynchronous send queue (0 once the sender goroutine has drained it).
+func (c *Conn) VerifSendQueueLen() int {
+	c.mux.Lock()
+	defer c.mux.Unlock()
+	return len(c.sendQueue)
+}
